@@ -1,7 +1,7 @@
 (* Dispatcher for the fmt area (C02, C03, string literals of C18): executable
    entry points used by the correspondence check (extracted to OCaml and
    also run by vm_compute).  All request decoding is Gallina. *)
-From FendV Require Import Base.Prelude Fmt.Rat Fmt.Format Fmt.Lex Fmt.StringLit Fmt.Root Fmt.Flag Fmt.RealFlag.
+From FendV Require Import Base.Prelude Fmt.Rat Fmt.Format Fmt.Lex Fmt.StringLit Fmt.Root Fmt.Flag Fmt.RealFlag Fmt.Complex.
 From Coq Require Import QArith.
 Open Scope N_scope.
 
@@ -217,6 +217,7 @@ Fixpoint as_rexpr (s : sx) : option rexpr :=
     | Some a, Some b =>
       if opeq k "add" then Some (RAdd a b) else if opeq k "sub" then Some (RSub a b)
       else if opeq k "mul" then Some (RMul a b) else if opeq k "div" then Some (RDiv a b)
+      else if opeq k "powe" then Some (RPowE a b)
       else None
     | _, _ => None
     end
@@ -240,6 +241,30 @@ Definition run_fmt : dispatcher := fun op args =>
         | _, _ => Some sx_bad
         end
       | _, _, _, _, _, _, _, _, _ => Some sx_bad
+      end
+    | _ => Some sx_bad
+    end
+  else if opeq op "fmt-cx" then
+    (* (fmt-cx (neg (num) (den) exact base_tag base) re_override (neg (num) (den) ...) im_override style_tag style_n comma)
+       a part that is a multiple of pi is passed as its rational approximation with override = 1 *)
+    match args with
+    | [XL (rn :: XL rnumL :: XL rdenL :: ex :: bt :: b :: _); rov; XL (inn :: XL inum :: XL iden :: _); iov; st; sn; comma] =>
+      match as_N rn, as_Ns rnumL, as_Ns rdenL, as_N ex, as_N bt, as_N b with
+      | Some rn, Some rnumL, Some rdenL, Some ex, Some bt, Some b =>
+        match as_N rov, as_N inn, as_Ns inum, as_Ns iden, as_N iov, as_N st, as_N sn, as_N comma with
+        | Some rov, Some inn, Some inum, Some iden, Some iov, Some st, Some sn, Some comma =>
+          match as_basek bt b, as_style st sn with
+          | Some bk, Some sty =>
+            let re := mkrat (negb (rn =? 0)) (limbs_val rnumL) (limbs_val rdenL) in
+            let im := mkrat (negb (inn =? 0)) (limbs_val inum) (limbs_val iden) in
+            Some (sx_resn (fun r => [sx_Ns (shown_text r)])
+                    (complex_format (run_fuel (N.max (rden re) (rden im))) (negb (ex =? 0)) sty bk (as_sep comma)
+                                    re (negb (rov =? 0)) im (negb (iov =? 0))))
+          | _, _ => Some sx_bad
+          end
+        | _, _, _, _, _, _, _, _ => Some sx_bad
+        end
+      | _, _, _, _, _, _ => Some sx_bad
       end
     | _ => Some sx_bad
     end
